@@ -1376,14 +1376,15 @@ func realisations(content absconf.Body, thorough bool) []Real {
 // label k at the end and null / [] at every other position, and the empty object at every position of an
 // array-form label level. Contents of <= 1 item also as the body of a wrapper block (block, block-array,
 // labelled), plain and with the body-level insertions.
-// thorough: contents of <= 3 items, every form at every position (also inside the element objects of an
-// array-form top-level body), types x, y, z, labels k and z; wrapper blocks for contents of <= 2 items.
+// thorough: labels k and z; contents of <= 2 items: every form at every position (also inside the element
+// objects of an array-form top-level body); contents of 3 items: the quick selection of forms and positions;
+// wrapper blocks for contents of <= 2 items. (These cases use the quick schema space, with splits into 3.)
 func degenerateRealisations(content absconf.Body, thorough bool) []Real {
 	maxLen, maxWrap := 2, 1
 	opt := absconf.DegOptions{Types: []string{"x", "y"}, Labels: []string{"k"}, Arity: absconf.BlockArity(content)}
 	if thorough {
 		maxLen, maxWrap = 3, 2
-		opt.Types, opt.Labels, opt.Full = []string{"x", "y", "z"}, []string{"k", "z"}, true
+		opt.Labels, opt.Full = []string{"k", "z"}, len(content) <= 2
 	}
 	var out []Real
 	if len(content) > maxLen {
@@ -1426,8 +1427,8 @@ func gen(tier string, emit func(engine.Case) bool) {
 		n++
 		for ri, r := range realisations(b, thorough) {
 			d := Data{Content: b, Real: r, Names: names, MaxSchema: maxSchema, Parts: parts, Swap: thorough}
-			if r.Kind == "merged" && len(r.Cuts) == 3 {
-				// merges of three files: the smaller schema space
+			if (r.Kind == "merged" && len(r.Cuts) == 3) || r.Deg != nil || r.Wrap != "" {
+				// merges of three files, JSON zero-blocks encodings and wrapper blocks: the smaller schema space
 				d.Names, d.MaxSchema, d.Swap = "abxy", 3, false
 			}
 			chunks := 1
@@ -1512,6 +1513,17 @@ func shrink(c engine.Case) (out []engine.Case) {
 			}
 			nd.Real.Dynamic = dyn
 		}
+		if d.Real.Deg != nil {
+			// the same kind of insertion (site, name, form) at any place of the smaller document
+			for _, alt := range degenerateRealisations(nd.Content, true) {
+				if alt.Kind == d.Real.Kind && alt.Wrap == d.Real.Wrap && alt.Deg != nil && alt.Deg.Site == d.Real.Deg.Site && alt.Deg.Name == d.Real.Deg.Name && alt.Deg.Form == d.Real.Deg.Form {
+					ad := nd
+					ad.Real = alt
+					out = append(out, engine.Case{ID: c.ID + "c", Data: ad})
+				}
+			}
+			continue
+		}
 		out = append(out, engine.Case{ID: c.ID + "c", Data: nd})
 	}
 	return out
@@ -1569,12 +1581,13 @@ func main() {
 		Title:     "Schema-driven body processing accounts for every item exactly once",
 		Technique: "bounded exhaustive enumeration of logical contents x Body implementations x schemas x ordered schema splits; every Content / PartialContent / JustAttributes result compared with a set/sequence reference model, two-step vs one-step compared directly",
 		Rule: "logical contents: every sequence of <= 3 items over {a=, b=, x{}, x \"l\"{}, x \"l\" \"l\"{}, y{}} (thorough: + y \"l\"{}), each item identifiable (attribute value 10+i, block body `id = 20+i`, labels alternate k/m); sequences with a repeated attribute name only as merges that put the definitions in different files; blocks of one type with different label counts not as JSON. " +
-			"Realised as: native; JSON compact (one object, adjacent blocks joined) and JSON array-heavy (arrays at every level); dynblock.Expand of the native body with all blocks static, with every maximal run of same-type blocks written as one dynamic block with a constant for_each, and with only the first run dynamic (thorough: every subset of runs); hcl.MergeBodies of ONE file (native or JSON; every step is also run on the file itself and must give the same observation), of the content cut into 2 consecutive files in every way incl. empty files with every file native or JSON, and cut into 3 consecutive files in every way (contents of <= 2 items: every syntax mix; 3 items: all-native for every cut and native/JSON/native with one item per file; thorough: every mix), so that files that contribute nothing to a step occur at every position. " +
+			"Realised as: native; JSON compact (one object, adjacent blocks joined) and JSON array-heavy (arrays at every level); JSON 'zero blocks' encodings (contents of <= 2 items, thorough <= 3): each of those two documents with ONE insertion of a property for the block type x or y whose value holds no block body -- null, [], {}, [{}], {\"k\": null}, {\"k\": []}, {\"k\": {}}, {\"k\": {\"m\": null}}, {\"k\": {\"m\": []}} at the end of the top-level body and null / [] at every other property position (array-form body: as a new element at every position, and the empty object {} as a new element at every position), so alone, before, between and after real blocks of the same type (repeated property names); and at every label level of every block property a label k with null, [], {}, {\"k\": null}, {\"k\": []} (as far as levels remain) at the end and null / [] at every other position, and {} at every position of an array-form label level (thorough: every form at every position, labels k and z); contents of <= 1 item (thorough <= 2) also one nesting level down, as the body of a block w of a wrapper file ({\"w\": DOC}, {\"w\": [{}, DOC]}, {\"w\": {\"k\": DOC}}), plain and with the body-level insertions; dynblock.Expand of the native body with all blocks static, with every maximal run of same-type blocks written as one dynamic block with a constant for_each, and with only the first run dynamic (thorough: every subset of runs); hcl.MergeBodies of ONE file (native or JSON; every step is also run on the file itself and must give the same observation), of the content cut into 2 consecutive files in every way incl. empty files with every file native or JSON, and cut into 3 consecutive files in every way (contents of <= 2 items: every syntax mix; 3 items: all-native for every cut and native/JSON/native with one item per file; thorough: every mix), so that files that contribute nothing to a step occur at every position. " +
 			"x ALL schemas over the names a,b,x,y with <= 3 elements (attribute optional/required; block type with 0, 1 or 2 labels; names absent from a content play the part of unknown names) -- thorough: over a,b,x,y,z with <= 4 elements, z (never present) as optional/required attribute or block type, plus the kind swaps 'a requested as a block type' and 'x requested as an attribute' (merges of 3 files: the quick schema space) " +
 			"x EVERY ordered assignment of the schema elements to 2 parts, empty parts included (thorough: also every assignment onto 3 non-empty parts). Per schema: Content(schema). Per split: PartialContent(part 1) [, PartialContent(part 2)] and then on the remainder both Content(last part) and PartialContent(last part) followed, on the final remainder, by JustAttributes and by Content(complement schema = every name of the content outside the schema with its own kind and label count). Bodies are reused: the source body serves all schemas and splits of a case; every remainder is processed partially, exhaustively, partially again and exhaustively again with the same schema, and the final remainder answers JustAttributes before and after its exhaustive processing -- repeated calls must give identical observations (incl. the number of errors). " +
 			"Every result is compared with ref/refbody (L1-L3): attribute names and values, per-type block sequences with labels and block identity, error presence, number of errors >= number of erroneous items (not for expanded bodies, where one dynamic block stands for several items); the union of the steps is compared with the single step directly (L4); all implementations are held to the same reference on the same logical content (L5). A case = (content, realisation[, schema chunk]) and covers all its schemas and splits; the check keeps going after a failure and reports per case the failure class that is not yet a recorded finding.",
 		Assumptions: []string{
 			"the reference model ref/refbody is the specification's reading of spec.md 'Schema-driven Processing' / 'Partial Processing of Body Content' / 'Dynamic Attributes Processing' and json/spec.md 'Structural Elements'; where those are silent (label-count mismatch content, duplicate attribute content, null / empty label levels in JSON) the model marks the affected names unspecified and only error presence is compared",
+			"a JSON property named after a requested block type is 'a definition of zero or more blocks of that type' whatever its value (json/spec.md), so it is consumed by the step that requests the type: where the value's meaning is not specified (null, an empty label level) that step's own result is not compared, but the property is absent from the remaining body and every later step is compared as usual; [] below the label levels is specified as zero blocks and compared in every step",
 			"expression evaluation of number literals and of the dynblock iterator object is trusted (used to identify attributes and blocks)",
 		},
 		Gen:    gen,
